@@ -43,6 +43,47 @@ func genData(r *Rng, shape string, n int) []byte {
 				b = append(b, ' ')
 			}
 		}
+	case "crlf", "crlfcut", "crlflone":
+		// DOS text; "crlfcut": the block starts with the LF and ends with the CR of pairs cut by the block
+		// boundaries; "crlflone": one LF without CR, and a trailing CR
+		if shape == "crlfcut" {
+			b = append(b, '\n')
+		}
+		lone := -1
+		if shape == "crlflone" {
+			lone = r.Intn(n/2 + 1)
+		}
+		for len(b) < n-1 {
+			w := words[r.Intn(len(words))]
+			b = append(b, w...)
+			if lone >= 0 && len(b) >= lone {
+				b = append(b, '\n')
+				lone = -1
+				continue
+			}
+			if r.Intn(9) == 0 {
+				b = append(b, '\r', '\n')
+			} else {
+				b = append(b, ' ')
+			}
+		}
+		if len(b) > n-1 {
+			b = b[:n-1]
+			for k := range b { // no CR or LF split by the truncation
+				if k == len(b)-1 && (b[k] == '\r' || b[k] == '\n') {
+					b[k] = ' '
+				}
+			}
+			if len(b) > 1 && b[len(b)-2] == '\r' {
+				b[len(b)-2] = ' '
+			}
+		}
+		if shape == "crlf" {
+			b = append(b, ' ')
+		} else {
+			b = append(b, '\r')
+		}
+		return b
 	case "utf8":
 		// many distinct code points (2-4 byte sequences) mixed with ascii
 		ranges := [][2]int{{0x400, 0x4ff}, {0x3040, 0x30ff}, {0x4e00, 0x9fff}, {0x1f600, 0x1f64f}, {0x80, 0x7ff}}
